@@ -62,7 +62,12 @@ sec = '''
   `after_manifest` and `in_compute` (while the next utterance is being fetched/computed, main
   process only) x `hard` / `soft`. The forked child reseeds numpy / torch / random from the OS
   first: a real invocation is a fresh process, whereas a fork inherits the parent's RNG state
-  and made a "random fallback seed" look reproducible (this hid seed C10_b1 at first).
+  and made a "random fallback seed" look reproducible (this hid seed C10_b1 at first). A fork also inherits
+  the string-hash salt, which hid seeds C09_e1 / C10_e1 (`hash(utt_id)` used as a seed): resumes and repeated
+  runs are therefore also made in a **new interpreter** with a drawn PYTHONHASHSEED, re-using the same
+  instrumented child through a boot script (`run_tool(fresh=...)`, `harness/faults/fresh.py`); the quick tier
+  of C10 and of the C09 fixed-seed clause is spread over several processes (`Clause.quick_shards`) to pay for
+  the interpreter start-up.
 * **Evidence** is written only when the tree under test is `/repo` (runs against scratch or
   mutant trees via `VERIF_REPO` never touch `evidence/`).
 * **Corpus** (`corpus/<ID>/*.json`) is replayed first in both tiers: one or more witnesses of
@@ -116,6 +121,16 @@ empty matrices.
 * C18/C20/C11/C17/C16 (sub-agent built): int64 above 2^53 vs the documented float64
   intermediate, subnormal frequencies, width-1 windows, HDF5 saturating casts, NaN-aware
   attribute comparison - each fixed by re-deriving the domain from the statement.
+* Found by running every quick check at VERIF_SEED 1, 2 and 3 after each round of generator changes:
+  C16 `own_statistics` demanded variance 1 to 1e-9 on 5000 vectors with |mean|/std of 950 (float64
+  cancellation in E[x^2]-mean^2 is 1e-9 there) -> the bound follows the same conditioning model as the other
+  clauses; C09 `fixed_seed` demanded that *another* seed changes the output, which is not in the statement and
+  fails for a filter without any response -> now only a measure of non-triviality; C03 fed a half-precision
+  computer a "loud" signal whose samples are inf in half precision, and a LOG_FLOOR_VALUE (1e-9, my own
+  configuration variation) that rounds to zero in half precision -> neither is generated any more; C10
+  `crash_history` injected an "in_compute" fault with DataLoader workers, where items are computed and counted
+  outside the main process -> that combination is no longer generated; C15 compared a computed pad value
+  (mean) bit-for-bit although the summation order depends on the memory layout -> 1e-10 relative.
 
 ### 7.4 Sensitivity: hand-written mutants (`mutants/<ID>/*.patch`, `tools/mutants.py`)
 
@@ -127,7 +142,7 @@ runs the check through `VERIF_REPO`, expects exit 1 and removes the copy.
 
 ### 7.5 Sensitivity: breaking changes seeded by independent sub-agents (`seeded/<name>/`)
 
-Four rounds of twenty fresh sub-agents (one per property and round) were given only the
+Five rounds of twenty fresh sub-agents (one per property and round) were given only the
 property text and a scratch git worktree under /tmp - nothing from /verif; in the later
 rounds also the one-line summaries of the earlier rounds' changes with the instruction to find
 something of a different kind - and asked for up to two plausible changes that break the
@@ -137,7 +152,7 @@ all 752 baseline tests pass with the change) and are kept with `patch.diff`, `de
 `meta.json`. ''' + str(total - missed) + ''' were caught by the quick tier as it stood when they arrived; **''' + str(missed) + ''' were
 missed and led to the strengthenings listed below**, after which all ''' + str(total) + ''' are caught by the
 quick tier of their own property (`tools/mutants.py --seeded`). Names `Cxx_n` are round 1,
-`Cxx_bn` round 2, `Cxx_cn` round 3 (which also suggested kinds of change: cooperating sites, configuration constants, numeric edge values, argument types, duck-typed streams, shared state between objects, half-updated objects after an error), `Cxx_dn` round 4 (kinds suggested: data-dependent numeric paths such as overflow and non-finite values, sizes beyond an internal block length, optional header fields, file-name conventions, resource handling such as memory maps, interactions of three parameters). Four round-4 seeds (C09_d1, C10_d1, C17_d1, C17_d2) met a working tree that I had already strengthened on my own; the committed checks of that moment missed them and they are counted as misses. Seeds are also re-run at VERIF_SEED 2 and 3; two (C06_c2, C14_b1) were caught at seed 1 but not at seed 3, so the lowered-threshold configurations were made five times more frequent and more extreme (down to 1e-6) and signal lengths on the frame-count boundaries (whole and half multiples of the shift, +-1) are now generated on purpose.
+`Cxx_bn` round 2, `Cxx_cn` round 3 (which also suggested kinds of change: cooperating sites, configuration constants, numeric edge values, argument types, duck-typed streams, shared state between objects, half-updated objects after an error), `Cxx_dn` round 4 (kinds suggested: data-dependent numeric paths such as overflow and non-finite values, sizes beyond an internal block length, optional header fields, file-name conventions, resource handling such as memory maps, interactions of three parameters). Four round-4 seeds (C09_d1, C10_d1, C17_d1, C17_d2) met a working tree that I had already strengthened on my own; the committed checks of that moment missed them and they are counted as misses. Seeds are also re-run at VERIF_SEED 2 and 3; two (C06_c2, C14_b1) were caught at seed 1 but not at seed 3, so the lowered-threshold configurations were made five times more frequent and more extreme (down to 1e-6) and signal lengths on the frame-count boundaries (whole and half multiples of the shift, +-1) are now generated on purpose. `Cxx_en` is round 5, whose brief asked the agent to list the phrases of the statement that no earlier change had touched and to break one of those (25 seeds, 11 first missed - the highest miss rate since round 1, so the steer worked).
 
 | seed | change | first quick run | strengthening |
 |------|--------|-----------------|---------------|
@@ -169,6 +184,15 @@ block length of the implementation *or of a plausible re-implementation* (2**11 
 samples, 16 KiB reads) needs sizes beyond it; (xiii) optional fields of a file format are
 sometimes left out; (xiv) integer arguments far beyond any array size (shifts of 2**62); (xv)
 a value that the default dtype cannot distinguish (the two mu-law zeros) needs a read that can.
+From round 5: (xvi) **two invocations of a command are two processes** - in-process calls and fork()ed children share
+the string-hash salt, ids and import state of the harness, so a per-process value leaking into the output
+(`hash(utt_id)` as a seed) is invisible there; later invocations now also run in a new interpreter with a drawn
+PYTHONHASHSEED (`harness/faults/fresh.py`, `cli_crash.run_tool(fresh=...)`); (xvii) finite data at the ends of the
+exponent range (2**+-600) and of the integer range (the dtype's minimum itself), with cases whose *defined* value
+is not representable discarded rather than judged; (xviii) runs of exact zeros inside a signal; (xix) every phrase
+of a statement gets its own path: "loaded statistics" (C16 through a file), "padding" in every numpy mode (C15
+Stack), a refused call with another dtype (C04), a second writer to the same path (C17), public attributes
+assigned after construction (C20).
 '''
 p = os.path.join(H, "DESIGN.md")
 s = open(p).read()
